@@ -7,6 +7,7 @@ package main
 // surviving state effects, balance journal and journal attribution, which are compared with what really happened.
 
 import (
+	"bytes"
 	"context"
 	"errors"
 	"fmt"
@@ -53,13 +54,13 @@ type jpOutcome struct {
 type aspectScript struct{ pre, post jpOutcome }
 
 type jpRec struct {
-	point   string
-	to      common.Address
-	gasIn   int64
-	line    string // canonical record of the request as the Aspect saw it
-	ret     []byte
-	left    uint64
-	err     error
+	point string
+	to    common.Address
+	gasIn int64
+	line  string // canonical record of the request as the Aspect saw it
+	ret   []byte
+	left  uint64
+	err   error
 }
 
 var (
@@ -147,6 +148,7 @@ type transferRec struct {
 	from, to         common.Address
 	amount           *big.Int
 	bf, bt, bfa, bta *big.Int
+	idx              uint64 // call-tree index current when the transfer was made
 }
 
 // ---------------------------------------------------------------- the logger
@@ -177,11 +179,11 @@ type frec struct {
 	effects     []uint64 // program effects performed by this frame itself
 	failedErr   error
 	// specification material (C05 C06 C08)
-	nodeIdx     int   // call-tree index of the node this frame pushed (-1: none)
-	parentNode  int   // index of the nearest enclosing frame that pushed a node (-1: none)
-	jpFirst     int   // len(frameJPLog) at the first step (-1: no step)
-	jpLast      int   // … at the last step
-	jpExit      int   // … at the exit callback
+	nodeIdx     int // call-tree index of the node this frame pushed (-1: none)
+	parentNode  int // index of the nearest enclosing frame that pushed a node (-1: none)
+	jpFirst     int // len(frameJPLog) at the first step (-1: no step)
+	jpLast      int // … at the last step
+	jpExit      int // … at the exit callback
 	firstGas    uint64
 	accepted    bool
 	exitOut     []byte
@@ -634,10 +636,10 @@ func (l *frameLogger) CaptureState(pc uint64, op vm.OpCode, gas, cost uint64, sc
 // ---------------------------------------------------------------- program generator
 
 type fact struct {
-	kind    string // "sstore", "journal", "sub", "create"
-	id      uint64
-	slot    uint64
-	sub     *fsub
+	kind string // "sstore", "journal", "sub", "create"
+	id   uint64
+	slot uint64
+	sub  *fsub
 }
 
 type fsub struct {
@@ -658,14 +660,14 @@ type fsub struct {
 }
 
 type fgen struct {
-	r       *Rng
-	nextID  uint64
-	nextAcc int
-	codes   map[common.Address][]byte
-	blobs   map[common.Address][]byte
-	eoas    []common.Address
-	aspects map[common.Address]*aspectScript
-	creates int
+	r        *Rng
+	nextID   uint64
+	nextAcc  int
+	codes    map[common.Address][]byte
+	blobs    map[common.Address][]byte
+	eoas     []common.Address
+	aspects  map[common.Address]*aspectScript
+	creates  int
 	standard bool // standard opcodes only: LOGs instead of journal instructions, no Aspects
 }
 
@@ -712,10 +714,10 @@ func (g *fgen) genBody(depth int) []fact {
 				out = append(out, fact{kind: "journal", slot: uint64(1 + g.r.Intn(3))})
 			}
 		case k < 88 && depth < 4:
-			out = append(out, fact{kind: "sub", sub: g.genSub(depth + 1, false)})
+			out = append(out, fact{kind: "sub", sub: g.genSub(depth+1, false)})
 		case k < 95 && depth < 2 && g.creates < 3:
 			g.creates++
-			out = append(out, fact{kind: "create", sub: g.genSub(depth + 1, true)})
+			out = append(out, fact{kind: "create", sub: g.genSub(depth+1, true)})
 		default:
 			g.nextID++
 			out = append(out, fact{kind: "sstore", id: 0x10000 + g.nextID})
@@ -735,7 +737,7 @@ func (g *fgen) genSub(depth int, create bool) *fsub {
 	}
 	if create {
 		s.op = []byte{opCREATE, opCREATE2}[g.r.Intn(2)]
-		s.salt = uint64(g.r.Intn(2)) // few salts: CREATE2 collisions happen
+		s.salt = uint64(g.r.Intn(2))  // few salts: CREATE2 collisions happen
 		s.body = g.genBody(depth + 2) // shallow init code
 		s.runtime = [][]byte{{}, {0x00}, {0x60, 0x00}, {0xef, 0x00}}[g.r.Intn(4)]
 		s.end = []byte{opRETURN, opRETURN, opRETURN, opREVERT, opINVALID, opSTOP}[g.r.Intn(6)]
@@ -879,6 +881,7 @@ func runFrameCase(r *Rng, em *Emitter, label string, tags string) {
 		t := transferRec{from: from, to: to, amount: new(big.Int).Set(amount), bf: new(big.Int).Set(db.GetBalance(from)), bt: new(big.Int).Set(db.GetBalance(to))}
 		doTransfer(db, from, to, amount)
 		t.bfa, t.bta = new(big.Int).Set(db.GetBalance(from)), new(big.Int).Set(db.GetBalance(to))
+		t.idx = lg.evm.Tracer().CurrentCallIndex()
 		lg.transfers = append(lg.transfers, t)
 	}
 	env := newEnv(fork, lg, nil, sdb, transfer)
@@ -999,6 +1002,40 @@ func runFrameCase(r *Rng, em *Emitter, label string, tags string) {
 	em.Op("C04", "Q world", listStr(alive))
 	em.Op("C03,C07", "Q depth", hexU64(uint64(reflect.ValueOf(env.evm).Elem().FieldByName("depth").Int())))
 	sc := env.evm.Tracer().StateChanges()
+	// C13 specification (independent of the Lean model): the balance journal is exactly what the harness' own Transfer wrapper saw —
+	// the true balances immediately before and after every transfer, under the call index current at that moment, repeats collapsed
+	{
+		shadow := map[common.Address]map[uint64][][]byte{}
+		put := func(a common.Address, i uint64, v *big.Int) {
+			if shadow[a] == nil {
+				shadow[a] = map[uint64][][]byte{}
+			}
+			l := shadow[a][i]
+			if len(l) == 0 || !bytes.Equal(l[len(l)-1], v.Bytes()) {
+				shadow[a][i] = append(l, v.Bytes())
+			}
+		}
+		for _, t := range lg.transfers {
+			put(t.from, t.idx, t.bf)
+			put(t.to, t.idx, t.bt)
+			put(t.from, t.idx, t.bfa)
+			put(t.to, t.idx, t.bta)
+		}
+		verdict := "match"
+		for _, a := range accts {
+			got, want := "none", "none"
+			if b := sc.Balance(a); b != nil {
+				got = showChangeMap(b.Changes())
+			}
+			if shadow[a] != nil {
+				want = showChangeMap(shadow[a])
+			}
+			if got != want && verdict == "match" {
+				verdict = fmt.Sprintf("differs:%s:journal=%s:observed=%s", hexAddr(a), got, want)
+			}
+		}
+		em.Op("C13", "S balshadow", verdict)
+	}
 	for _, a := range accts {
 		b := sc.Balance(a)
 		ans := "nil-or-nokey"
@@ -1063,7 +1100,7 @@ func runFrameCase(r *Rng, em *Emitter, label string, tags string) {
 		v = "leaked=" + listStr(leaked) + "_lost=" + listStr(lost)
 	}
 	em.Op("C04", "S atomic", v)
-	em.Op("C07,C03", "S wf", checkTreeWF(env.evm.Tracer()))
+	em.Op("C07,C03", "S wf", checkTreeWF(env.evm.Tracer(), rounds))
 	em.Op("C05", "S jp", lg.specJoinPoints())
 	em.Op("C06", "S gas", lg.specGas())
 	em.Op("C08", "S node", lg.specNodes())
@@ -1074,11 +1111,22 @@ func runFrameCase(r *Rng, em *Emitter, label string, tags string) {
 }
 
 // checkTreeWF evaluates C07's statement on the implementation's call tree through its exported accessors.
-func checkTreeWF(t *vm.Tracer) string {
+// checkTreeWF: the property's tree conditions on the real structure; topLevel is the number of invocations the host made
+// (every one of them, and nothing else, is a node without parent)
+func checkTreeWF(t *vm.Tracer, topLevel int) string {
 	ct := t.CallTree()
 	n := uint64(0)
 	for ct.FindCall(n) != nil {
 		n++
+	}
+	roots := 0
+	for i := uint64(0); i < n; i++ {
+		if ct.FindCall(i).Parent == nil {
+			roots++
+		}
+	}
+	if roots != topLevel {
+		return fmt.Sprintf("%d_nodes_without_parent_for_%d_top_level_invocations", roots, topLevel)
 	}
 	if ct.Current() != nil {
 		return fmt.Sprintf("call_%d_left_open", ct.Current().Index)
